@@ -307,6 +307,9 @@ pub enum Op {
     /// harness-side: `<cache>/tmp` becomes a symlink to a directory on another filesystem (a
     /// legal layout in which the temp file cannot be renamed into the content area)
     TmpElsewhere,
+    /// two streaming writers of one process open at the same time: both are opened, their
+    /// chunks are written alternately, then they commit — `a` first, or `b` first
+    TwoWriters { a: WriteSpec, b: WriteSpec, b_first: bool },
     /// harness-side: append a checksum-valid record for `key` (in its own bucket) whose
     /// integrity text is arbitrary — a state no well-formed call produces; lookups of that key
     /// are then judged by agreement (listing vs lookup, flavour vs flavour), not by the model
@@ -343,6 +346,7 @@ impl Op {
             Op::Chdir { .. } => "chdir",
             Op::PlantRecord { .. } => "plant_record",
             Op::TmpElsewhere => "tmp_elsewhere",
+            Op::TwoWriters { .. } => "two_writers",
         }
     }
 }
@@ -402,6 +406,8 @@ pub enum Out {
     Hang,
     /// harness-side step
     Done,
+    /// results of the two writers of `Op::TwoWriters` (a, b)
+    Pair(Box<Out>, Box<Out>),
 }
 
 #[derive(Clone, Debug, Serialize, Deserialize, PartialEq)]
@@ -414,7 +420,10 @@ pub enum DestState {
 
 impl Out {
     pub fn is_panic(&self) -> bool {
-        matches!(self, Out::Panic(_) | Out::Hang)
+        match self {
+            Out::Pair(a, b) => a.is_panic() || b.is_panic(),
+            o => matches!(o, Out::Panic(_) | Out::Hang),
+        }
     }
     pub fn is_err(&self) -> bool {
         matches!(self, Out::Err(..) | Out::ExtractErr { .. })
